@@ -3,6 +3,7 @@ package kmipserver
 import (
 	"context"
 	"errors"
+	"fmt"
 	"io"
 	"log/slog"
 	"net"
@@ -154,6 +155,18 @@ func (c *conn) readloop() {
 	}
 }
 
+// sendMsg writes a message to the stream. The encoder panics on a value it cannot serialize
+// (a negative interval, a type without tag, ...): report that as an error, a panic in the
+// write loop goroutine would end the whole process.
+func (c *conn) sendMsg(msg any) (err error) {
+	defer func() {
+		if p := recover(); p != nil {
+			err = fmt.Errorf("message cannot be encoded: %v", p)
+		}
+	}()
+	return c.stream.Send(msg)
+}
+
 // writeloop continuously listens for outgoing messages on the tx channel and sends them over the stream.
 // It handles errors during sending, propagates them back to the sender via the req.err channel, and terminates
 // the connection on failure. The loop exits when the connection is closed or the context is done.
@@ -167,7 +180,7 @@ func (c *conn) writeloop() {
 			if !ok {
 				return
 			}
-			if err := c.stream.Send(req.msg); err != nil {
+			if err := c.sendMsg(req.msg); err != nil {
 				c.logger.Debug("write fail:", "err", err)
 				if errors.Is(err, net.ErrClosed) {
 					err = io.ErrClosedPipe
